@@ -287,7 +287,7 @@ def model_state(obs):
     return {k: obs[k] for k in ("free", "cap", "lock", "count", "ds", "segs", "files", "jobs")}
 
 
-OP_DEADLINE_S = 10
+OP_DEADLINE_S = 6
 ATEXIT_LINE = False     # C05 sets it: every history ends with the server's exit handler, compared with the model's `atexit`
 C05_KINDS = ("segments-left-after-atexit",)
 
@@ -787,9 +787,16 @@ def shrink(case, sig):
     if not fails(cur):
         return case
     changed = True
-    while changed:
+    import time as _time
+    t_end = _time.time() + (40 if sig.get("kind") == "request-never-answered" else 120)
+    # first cut the tail after the failing op (cheap, and the only affordable step when every replay costs an op deadline)
+    while len(cur) > 1 and _time.time() < t_end and fails(cur[:-1]):
+        cur = cur[:-1]
+    while changed and _time.time() < t_end:
         changed = False
         for i in range(len(cur) - 1, -1, -1):
+            if _time.time() >= t_end:
+                break
             cand = cur[:i] + cur[i + 1:]
             if fails(cand):
                 cur = cand
@@ -859,10 +866,15 @@ def run_batch(ctx, kinds, profile, n, maxops, maxkeys, corpus_glob, chunk=300):
                 run, left = replay_history(case)
                 cases.append((case, run, left))
             first = False
+        blocked = 0
         for _ in range(min(chunk, todo)):
             cfg = random_cfg(ctx.rng, maxops, maxkeys, profile)
             ops, run, left = gen_and_run(ctx.rng, cfg)
             cases.append(({"cap": cfg["cap"], "via_server": cfg["via_server"], "ops": ops}, run, left))
+            blocked += 1 if getattr(run, "deadlocked", False) else 0
+            if blocked >= 4:
+                todo = 0            # a store that stops answering: each further history costs a full op deadline and shows the same
+                break
         todo -= min(chunk, todo)
         runs = []
         for case, run, left in cases:
